@@ -4,22 +4,135 @@ Same engine as C01; judged searches use absent keywords: random ones and adversa
 w+NUL, last byte flipped, w+w, a stored identifier used as keyword ...).
 """
 from props import _search_engine as eng
-from vlib import sse
+from vlib import gen, sse
 
 LEVEL = "exploration"
 SHARD_TIMEOUT = {"quick": 240, "thorough": 1500}
 
 
 def plan(tier, seed):
-    return sse.scheme_shards(tier, per_scheme_quick=2, per_scheme_thorough=3, budget_quick=10, budget_thorough=200)
+    specs = sse.scheme_shards(tier, per_scheme_quick=2, per_scheme_thorough=3, budget_quick=10, budget_thorough=200)
+    # CT14 / ANSS16 pad the database with dummy keyword -> identifier pairs; a search for such a dummy keyword returns
+    # padding identifiers, so the dummy keywords must be values nobody can compute: fresh in every setup
+    for sch in ("CT14.Pi", "ANSS16.Scheme3"):
+        specs.append({"name": f"padding-keywords-{gen.SHORT[sch]}", "kind": "padding", "scheme": sch,
+                      "rounds": 25 if tier == "quick" else 600, "budget_s": 60 if tier == "quick" else 400})
+    return specs
+
+
+def run_padding(spec, acc, ctx):
+    """Hook the PRF while the real EDBSetup runs twice on one (key, database) - the host re-seeds the global `random`
+    generator with one value before each - and collect the messages evaluated under the master key that are not
+    stored keywords: the dummy keywords. A dummy keyword that occurs in both setups is computable by whoever knows
+    the key (or the seed): searching it returns padding identifiers although it is not in the database."""
+    import copy
+    import random as global_random
+    import toolkit.prf.hmac_prf as prf_mod
+    scheme = spec["scheme"]
+    short = gen.SHORT[scheme]
+    rng = ctx.rng
+    L = sse.loader(scheme)
+    log = []
+    orig = prf_mod.HmacPRF.__call__
+
+    def recording(self, key, message):
+        log.append((bytes(key), bytes(message)))
+        return orig(self, key, message)
+
+    for rnd in range(spec["rounds"]):
+        if ctx.out_of_time():
+            break
+        cid, cfg = gen.pick_config(scheme, rng, rnd)
+        try:
+            db, info = gen.make_db(rng, scheme, cfg, rng.choice(["zipf", "tiny", "one-heavy", "many-singletons"]), 24)
+        except ValueError:
+            continue
+        N = info["N"]
+        if N & (N - 1) == 0:
+            db[gen.gen_keyword(rng, 20, set(db))] = gen.gen_ids(rng, gen.caps(scheme, cfg)["id_size"], 1)
+            N += 1
+            if N & (N - 1) == 0:
+                continue
+        acc.count("cases")
+        acc.count("cases." + short)
+        acc.count("padding.cases")
+        case = sse.case_desc(scheme, cid, cfg, "padding", db)
+        try:
+            sch = L.SSEScheme(cfg)
+            key = sch.KeyGen()
+            master = bytes(key.K)
+            seed = rng.getrandbits(32)
+            dummies = []
+            prf_mod.HmacPRF.__call__ = recording
+            try:
+                for _ in range(2):
+                    del log[:]
+                    global_random.seed(seed)
+                    edb = sch.EDBSetup(key, copy.deepcopy(db))
+                    dummies.append({m for (k, m) in log if k == master and m not in db})
+            finally:
+                prf_mod.HmacPRF.__call__ = orig
+                global_random.seed()
+        except Exception as e:
+            acc.count("setup_failed")
+            acc.note(f"{short}: padding setup failed {type(e).__name__}: {e}")
+            continue
+        if not dummies[0] or not dummies[1]:
+            acc.count("padding.no_dummy_keyword_seen")
+            continue
+        acc.count("padding.dummy_keywords_seen", len(dummies[0]) + len(dummies[1]))
+        common = dummies[0] & dummies[1]
+        if common:
+            w = sorted(common)[0]
+            try:
+                got = len(sch.Search(edb, sch.TokenGen(key, w)).get_result_list())
+            except Exception:
+                got = -1
+            acc.violation(f"{short}:padding-keyword-computable",
+                          f"{scheme}: {len(common)} of {len(dummies[0])} dummy keywords are the same in two setups of "
+                          f"one (key, database) made after seeding the global random generator with one value: they "
+                          f"can be computed without being stored, and searching one - a keyword that is not in the "
+                          f"database - returns {got} padding identifiers", dict(case, keyword=w))
+            return
+        acc.add("distinct", sse.case_fp(scheme, "padding-" + cid, db))
 
 
 def run_shard(spec, acc, ctx):
+    if spec.get("kind") == "padding":
+        run_padding(spec, acc, ctx)
+        return
     eng.run(spec, acc, ctx, "absent")
 
 
 def replay(case, acc, ctx):
     scheme, cfg, db = case["scheme"], case["cfg"], case["db"]
+    if case.get("db_class") == "padding":
+        import copy
+        import random as global_random
+        import toolkit.prf.hmac_prf as prf_mod
+        L = sse.loader(scheme)
+        sch = L.SSEScheme(cfg)
+        key = sch.KeyGen()
+        log, sets = [], []
+        orig = prf_mod.HmacPRF.__call__
+
+        def recording(self, k, m):
+            log.append((bytes(k), bytes(m)))
+            return orig(self, k, m)
+        prf_mod.HmacPRF.__call__ = recording
+        try:
+            for _ in range(2):
+                del log[:]
+                global_random.seed(12345)
+                sch.EDBSetup(key, copy.deepcopy(db))
+                sets.append({m for (k, m) in log if k == bytes(key.K) and m not in db})
+        finally:
+            prf_mod.HmacPRF.__call__ = orig
+            global_random.seed()
+        if sets[0] & sets[1]:
+            acc.violation(f"{gen.SHORT[scheme]}:padding-keyword-computable", "dummy keywords repeat across two setups", case)
+        acc.count("replayed")
+        return
     st = sse.Setup(scheme, cfg, db)
     acc.count("replayed")
     if st.error is not None:
@@ -35,6 +148,12 @@ def replay(case, acc, ctx):
 
 def finish(m, tier, seed):
     cov, inc = eng.finish(m, tier, "absent", 100)
+    c = m["counters"]
+    cov["padding_keyword_freshness"] = {"setup_pairs": c.get("padding.cases", 0),
+                                        "dummy_keywords_observed": c.get("padding.dummy_keywords_seen", 0),
+                                        "pairs_without_dummy_keywords": c.get("padding.no_dummy_keyword_seen", 0)}
+    if c.get("padding.dummy_keywords_seen", 0) < 40:
+        inc.append("the PRF hook saw too few dummy keywords")
     return {"coverage": cov, "inconclusive": inc,
             "assumptions": ["absent keywords are drawn from the same domain as stored ones (non-empty, no leading NUL, "
                             "within the keyword limit)"]}
